@@ -124,6 +124,18 @@ def recordStop (key : Str) (products : Dict Str RecVal) (d : WDir) (given : Link
       .ok { prelim := .absent, final := .complete (finalOf p products key given) }
     else .error .signature
 
+/-- The gpg key-argument forms (`gpg_keyid`, `gpg_use_default`) do not know the file name in advance: the
+preliminary record is found by globbing for the step name, and exactly one must exist — whoever signed it. It
+is then checked against the key like any other. `prelims` = the preliminary files of that step name. -/
+def recordStopGlob (key : Str) (products : Dict Str RecVal) (prelims : List (FState Prelim))
+    (given : LinkExtras := LinkExtras.empty) : Except Err FinalLink :=
+  match prelims with
+  | [] => .error .linkNotFound
+  | [.complete p] => if p.signer = key ∧ p.intact then .ok (finalOf p products key given) else .error .signature
+  | [.partialWrite] => .error .other
+  | [.absent] => .error .linkNotFound
+  | _ :: _ :: _ => .error .linkNotFound        -- more than one: "We need exactly one to stop recording"
+
 /-! ## … and as the sequence of file-system operations it performs -/
 
 inductive StopOp where
